@@ -18,6 +18,7 @@ const (
 	Type0Identity                    // /Type0 Identity-H, 2-byte codes, ToUnicode CMap
 	Type1Standard                    // /Type1 Times-Roman, no /Encoding (StandardEncoding); ASCII only
 	Type1Widths                      // /Type1 Helvetica, /WinAnsiEncoding, with its own /FirstChar /LastChar /Widths (all 950)
+	Type1Differences                 // /Type1 Helvetica, /Encoding << /BaseEncoding /WinAnsiEncoding /Differences [65 /Euro /bullet 126 /Omega] >>
 )
 
 // Line is one shown string (one Tj at its own position).
@@ -90,6 +91,27 @@ func EncodeText(k FontKind, text string) ([]byte, bool) {
 	case TrueTypeMacRoman:
 		b, err := charmap.Macintosh.NewEncoder().Bytes([]byte(text))
 		return b, err == nil
+	case Type1Differences:
+		var out []byte
+		for _, r := range text {
+			switch r {
+			case '€':
+				out = append(out, 65)
+			case '•':
+				out = append(out, 66)
+			case 'Ω':
+				out = append(out, 126)
+			case 'A', 'B', '~':
+				return nil, false // these codes are re-assigned by /Differences
+			default:
+				b, err := charmap.Windows1252.NewEncoder().Bytes([]byte(string(r)))
+				if err != nil {
+					return nil, false
+				}
+				out = append(out, b...)
+			}
+		}
+		return out, true
 	case Type1Standard:
 		for _, r := range text {
 			if r < 0x20 || r > 0x7E || r == '\'' || r == '`' {
@@ -412,7 +434,7 @@ func Plan(doc Doc, lay Layout) File {
 	fontRes := func(ref func(string) int) string {
 		var s strings.Builder
 		s.WriteString("<< /Font <<")
-		for k := Type1WinAnsi; k <= Type1Widths; k++ {
+		for k := Type1WinAnsi; k <= Type1Differences; k++ {
 			if used[k] {
 				fmt.Fprintf(&s, " %s %d 0 R", fontName(k), ref(fmt.Sprintf("font%d", k)))
 			}
@@ -434,6 +456,11 @@ func Plan(doc Doc, lay Layout) File {
 		add(pending{key: "font4", packOK: true, body: func(func(string) int) string {
 			w := strings.TrimSpace(strings.Repeat("950 ", 95))
 			return "<< /Type /Font /Subtype /Type1 /BaseFont /Helvetica /Encoding /WinAnsiEncoding /FirstChar 32 /LastChar 126 /Widths [" + w + "] >>"
+		}})
+	}
+	if used[Type1Differences] {
+		add(pending{key: "font5", packOK: true, body: func(func(string) int) string {
+			return "<< /Type /Font /Subtype /Type1 /BaseFont /Helvetica /Encoding << /Type /Encoding /BaseEncoding /WinAnsiEncoding /Differences [65 /Euro /bullet 126 /Omega] >> >>"
 		}})
 	}
 	if used[Type1Standard] {
